@@ -8,6 +8,8 @@ timebase of the sampled system combined with a system of timebase `dt`, printed 
 ` J <dt>` / ` J err <e>`)
   names copy(0|1) name|- srcname|- <inputs> <outputs> <states> (- | <list>)×3
   pade T n numdeg|-
+  bind S|F npos <keyword names>      (S = sys.sample, F = sample_system / c2d; answers the slot of
+                                      every parameter: p<i> | k<j> | d)
 Trusted glue.
 -/
 import CtrlVerif.Driver.Mat
@@ -171,8 +173,26 @@ def hPade : P String := do
   | .ok (num, den) => pure ("ok pade " ++ showRats num ++ " " ++ showRats den)
   | .error e => pure (showErr e)
 
+def showSlot : Slot → String
+  | .pos i => s!"p{i}"
+  | .kw j => s!"k{j}"
+  | .dflt => "d"
+
+def hBind : P String := do
+  let route ← tok
+  let npos ← pNat
+  let kws ← pStrs
+  let r ← match route with
+    | "S" => pure (bindSample npos kws)
+    | "F" => pure (bindSampleSystem npos kws)
+    | _ => throw s!"bind:{route}"
+  match r with
+  | .ok sl => pure ("ok bind" ++ String.join (sl.map fun x => " " ++ showSlot x))
+  | .error e => pure (showErr e)
+
 def handle (toks : List String) : String :=
   match toks with
+  | "bind" :: rest => runLine hBind rest
   | "ss" :: rest => runLine hSS rest
   | "tf" :: rest => runLine hTF rest
   | "matched" :: rest => runLine hMatched rest
